@@ -16,7 +16,7 @@ EXPLANATION = (
 )
 DECIDES = "transducer template, completion-exactly-once discipline of the application forms, reduced propagation, falsey-element punning, sentinel initialisation"
 DECLINED = "element-wise agreement of the five application forms on concrete inputs; how many input elements are pulled (a counting fact)"
-TRUSTED = ["reduce unwraps one level of `reduced`", "a `reduced` value must not be passed to a reducing function again"]
+TRUSTED = ["a `reduced` value must not be passed to a reducing function again"]  # 'reduce unwraps one level of reduced' was trusted in Part I; it is checked by R5 now
 ASSUMPTIONS = []
 TECHNIQUE = "s-expression pattern rules with path enumeration over cond/if forms (own .lpy reader)"
 
@@ -323,7 +323,56 @@ def r4_sentinel_outside_element_domain(ctx):
         raise AnalysisError("no previous-element cells found in the transducers")
 
 
+REDUCERS = ("src/basilisp/lang/runtime.py", "src/basilisp/lang/vector.py", "src/basilisp/lang/map.py", "src/basilisp/lang/set.py", "src/basilisp/lang/list.py", "src/basilisp/lang/seq.py", "src/basilisp/lang/queue.py")
+
+
+@rule("C07.R5", floor=6)
+def r5_reduce_unwraps_exactly_one_level(ctx):
+    """Every reduce / reduce-kv loop of the runtime stops at a Reduced result and returns exactly
+    `result.deref()`: one level.  The transducers rely on it: cat and mapcat hand an inner
+    (reduced (reduced x)) to the enclosing reduce precisely so that one level survives and stops the
+    outer reduction too (preserving-reduced); a reduce that unwrapped to the bottom, or not at all,
+    would let `take` run on, or leak a wrapper into the result.  core's `unreduced` is one level too."""
+    import ast as _ast
+    from .. import pyfacts as P
+    n = 0
+    for rel in REDUCERS:
+        try:
+            tree = ctx.py(rel)
+        except (FileNotFoundError, AnalysisError):
+            continue
+        for fn in P.all_defs(tree):
+            tests = [t for t in _ast.walk(fn) if isinstance(t, (_ast.If, _ast.While)) and any(isinstance(c, _ast.Call) and P.un(c.func) == "isinstance" and len(c.args) == 2 and P.un(c.args[1]).split(".")[-1] == "Reduced" for c in _ast.walk(t.test))]
+            tests = [t for t in tests if P.enclosing_func(t) is fn]
+            for t in tests:
+                n += 1
+                inst = f"{rel}::{P.qual(fn)}::{P.un(t.test)}"
+                if isinstance(t, _ast.While):
+                    ctx.ob("C07.R5", inst, rel, t.lineno, False, "a loop keeps unwrapping while the value is Reduced: nested reduced values (cat/mapcat hand one up on purpose) lose every level, so the outer reduction is not stopped",
+                           witness="(into [] (comp cat (take 3)) (repeat [1 2])) would not terminate")
+                    continue
+                call = next(c for c in _ast.walk(t.test) if isinstance(c, _ast.Call) and P.un(c.func) == "isinstance")
+                var = P.un(call.args[0])
+                neg = isinstance(t.test, _ast.UnaryOp) and isinstance(t.test.op, _ast.Not)
+                branch = t.orelse if neg else t.body
+                ok = len(branch) == 1 and isinstance(branch[0], _ast.Return) and branch[0].value is not None and P.un(branch[0].value) in (f"{var}.deref()", f"{var}.value")
+                ctx.ob("C07.R5", inst, rel, t.lineno, ok,
+                       "" if ok else f"the Reduced branch is not `return {var}.deref()`: reduce must stop here and unwrap exactly one level")
+    d = _defs(ctx).get("unreduced")
+    if d is None:
+        raise AnalysisError("anchor vanished: core.lpy::unreduced")
+    body = L.fn_arities(d)[0][1][-1]
+    ok = L.head(body) == "if" and len(body.items) == 4 and body.items[1].text() == "(reduced? x)" and body.items[2].text() in ("@x", "(deref x)") and body.items[3].text() == "x"
+    ctx.ob("C07.R5", f"{CORE}::unreduced::one level", CORE, d.line, ok, "" if ok else "unreduced no longer unwraps exactly one level")
+    if n == 0:
+        raise AnalysisError("no Reduced tests found in the runtime's reduce implementations")
+
+
 SELFTEST = [
+    {"name": "reduce unwraps nested reduced values completely", "file": "src/basilisp/lang/runtime.py", "expect": "C07.R5",
+     "old": "        if isinstance(res, Reduced):\n            return res.deref()\n", "new": "        if isinstance(res, Reduced):\n            while isinstance(res, Reduced):\n                res = res.deref()\n            return res\n"},
+    {"name": "vector reduce-kv forgets to stop", "file": "src/basilisp/lang/vector.py", "expect": "C07.R5",
+     "old": "            init = f(init, idx, item)\n            if isinstance(init, Reduced):\n                return init.deref()\n", "new": "            init = f(init, idx, item)\n            if isinstance(init, Reduced):\n                init = init.deref()\n"},
     {"name": "map completion called twice", "file": CORE, "expect": "C07.R1",
      "old": "       ([result] (rf result))\n       ([result input]\n        (rf result (f input)))", "new": "       ([result] (rf (rf result)))\n       ([result input]\n        (rf result (f input)))"},
     {"name": "partition-all flush without unreduced", "file": CORE, "expect": "C07.R1", "first": True,
